@@ -12,6 +12,11 @@
      services/signature_processor.rs                    DMQ: marked authenticated, then register
      database/query/single_signature/update_single_signature.rs   insert or replace
      database/query/buffered_single_signature/insert_or_replace_… insert or replace
+     database/query/buffered_single_signature/get_…                 (by discriminant, order by ROWID desc)
+     database/query/buffered_single_signature/delete_…              (by discriminant and party ids)
+     services/epoch_service.rs + certifier inform_epoch              epoch change: registrations shift,
+                                                                    open messages of earlier epochs are
+                                                                    deleted with their rows, the buffer stays
    Idealisation: S-ideal signatures (Base/IdealSig.v); the aggregate verification key is the
    H-inj digest of the (key, stake) list — party ids are NOT part of it, exactly as in the
    code (Merkle leaves are (vk, stake)); the lottery is an oracle table supplied per case. *)
@@ -76,10 +81,14 @@ Definition verify_single_unbound (lot : lottery) (r : reg) (m : N) (s : ssig) : 
 Record omsg := { o_ent : N; o_msg : N; o_certified : bool }.
 Record row := { r_ent : N; r_sig : ssig }.       (* key: (open message, party id [, registration epoch: a function of the open message]) *)
 Record cert := { c_ent : N; c_signers : list N }.
+(* An entity id carries its signed entity type (discriminant): id = 1000 * type + beacon number.
+   The open message / row tables are keyed by the entity, the buffer by the TYPE only. *)
+Definition ety (ent : N) : N := ent / 1000.
 Record st := {
   st_open  : list omsg;
   st_rows  : list row;
-  st_buf   : list ssig;       (* buffered_single_signature, one signed entity type; key: party id *)
+  st_buf   : list (N * ssig); (* buffered_single_signature: (signed entity type, signature); key: (type, party id);
+                                 list order = ROWID order (insert-or-replace gives the replaced entry a new ROWID) *)
   st_certs : list cert
 }.
 Definition st0 : st := {| st_open := []; st_rows := []; st_buf := []; st_certs := [] |}.
@@ -94,8 +103,9 @@ Definition row_key (ent l : N) (r : row) : bool :=
 (* insert or replace *)
 Definition put_row (rows : list row) (ent : N) (sg0 : ssig) : list row :=
   filter (fun r => negb (row_key ent (s_label sg0) r)) rows ++ [{| r_ent := ent; r_sig := sg0 |}].
-Definition put_buf (buf : list ssig) (sg0 : ssig) : list ssig :=
-  filter (fun b => negb (N.eqb (s_label b) (s_label sg0))) buf ++ [sg0].
+Definition buf_key (ty l : N) (b : N * ssig) : bool := N.eqb (fst b) ty && N.eqb (s_label (snd b)) l.
+Definition put_buf (buf : list (N * ssig)) (ty : N) (sg0 : ssig) : list (N * ssig) :=
+  filter (fun b => negb (buf_key ty (s_label sg0) b)) buf ++ [(ty, sg0)].
 
 (* outcome classes of a submission *)
 Definition REGISTERED := 0.  Definition BUFFERED := 1.  Definition NOTFOUND := 2.
@@ -118,7 +128,7 @@ Definition register_buffered (e : env) (s : st) (ent : N) (x : ssig) (authentica
   let '(oc, s') := register_core e s ent x in
   if N.eqb oc NOTFOUND && authenticated
   then (BUFFERED, {| st_open := st_open s; st_rows := st_rows s;
-                     st_buf := put_buf (st_buf s) x; st_certs := st_certs s |})
+                     st_buf := put_buf (st_buf s) (ety ent) x; st_certs := st_certs s |})
   else (oc, s').
 
 (* SingleSignatureAuthenticator::authenticate: current stake distribution, then the next one *)
@@ -128,18 +138,33 @@ Definition authenticate (e : env) (claimed : N) (x : ssig) : bool :=
 Inductive path := Http | Direct | Dmq.
 Inductive ev :=
 | Sub (p : path) (ent : N) (claimed : N) (x : ssig)   (* claimed = `signed_message` of the HTTP payload *)
+| Batch (l : list (N * ssig))                          (* one batch of the DMQ consumer: (entity, signature) pairs *)
 | Open (ent : N) (msg : N)                             (* create_open_message (+ buffered hand-over) *)
 | Seal (ent : N).                                      (* create_certificate *)
 
 (* BufferedCertifierService::try_register_buffered_signatures_to_current_open_message:
-   registered ones are removed from the buffer, invalid ones stay *)
-Fixpoint handover (e : env) (s : st) (ent : N) (todo : list ssig) (keep : list ssig) : st * list ssig :=
+   the buffered signatures OF THE TYPE of the new open message are tried, newest first (ROWID desc);
+   the party ids of the registered ones are collected (they are then deleted from the buffer by
+   (type, party id)), invalid ones stay *)
+Fixpoint handover (e : env) (s : st) (ent : N) (todo : list (N * ssig)) (done : list N) : st * list N :=
   match todo with
-  | [] => (s, keep)
+  | [] => (s, done)
   | x :: tl =>
-      let '(oc, s') := register_core e s ent x in
-      if N.eqb oc REGISTERED then handover e s' ent tl keep
-      else handover e s' ent tl (keep ++ [x])
+      let '(oc, s') := register_core e s ent (snd x) in
+      if N.eqb oc REGISTERED then handover e s' ent tl (done ++ [s_label (snd x)])
+      else handover e s' ent tl done
+  end.
+
+(* SequentialSignatureProcessor::process_signatures on one batch: every signature is marked
+   authenticated and registered in turn, an invalid one does not stop the batch; the only
+   observable is "at least one import error" *)
+Fixpoint batch (e : env) (s : st) (l : list (N * ssig)) : bool * st :=
+  match l with
+  | [] => (false, s)
+  | x :: tl =>
+      let '(oc, s1) := register_buffered e s (fst x) (snd x) true in
+      let '(b, s2) := batch e s1 tl in
+      (N.eqb oc INVALID || b, s2)
   end.
 
 Definition nodup_N (l : list N) : list N :=
@@ -157,14 +182,18 @@ Definition step (e : env) (s : st) (v : ev) : obs * st :=
   (* the DMQ processor reports only "an import error happened" (invalid signature) or not *)
   | Sub Dmq ent _ x => let '(oc, s') := register_buffered e s ent x true in
                        (ON (if N.eqb oc INVALID then 11 else 10), s')
+  | Batch l => let '(b, s') := batch e s l in (ON (if b then 11 else 10), s')
   | Open ent msg =>
       match find_open s ent with
       | Some _ => (ON 9, s)                      (* never generated: one Open per entity *)
       | None =>
           let s1 := {| st_open := st_open s ++ [{| o_ent := ent; o_msg := msg; o_certified := false |}];
                        st_rows := st_rows s; st_buf := st_buf s; st_certs := st_certs s |} in
-          let '(s2, keep) := handover e s1 ent (st_buf s1) [] in
-          (ON 0, {| st_open := st_open s2; st_rows := st_rows s2; st_buf := keep; st_certs := st_certs s2 |})
+          let mine := filter (fun b => N.eqb (fst b) (ety ent)) (st_buf s1) in
+          let '(s2, done) := handover e s1 ent (rev mine) [] in
+          (ON 0, {| st_open := st_open s2; st_rows := st_rows s2;
+                    st_buf := filter (fun b => negb (N.eqb (fst b) (ety ent) && mem (s_label (snd b)) done)) (st_buf s1);
+                    st_certs := st_certs s2 |})
       end
   | Seal ent =>
       match find_open s ent with
@@ -219,11 +248,26 @@ Definition sort_by {A} (key : A -> N) (l : list A) : list A := fold_right (ins k
 Definition obs_state (e : env) (s : st) : obs :=
   OL [ OL (map (fun r => OL [ON (r_ent r); obs_ssig e (r_sig r)])
              (sort_by (fun r => r_ent r * 100000 + s_label (r_sig r)) (st_rows s)));
-       OL (map (obs_ssig e) (sort_by s_label (st_buf s)));
+       OL (map (fun b => OL [ON (fst b); obs_ssig e (snd b)])
+             (sort_by (fun b => fst b * 100000 + s_label (snd b)) (st_buf s)));
        OL (map (fun c => OL [ON (c_ent c); OLN (sort_by (fun x => x) (c_signers c))]) (st_certs s)) ].
 
 Definition run (e : env) (evs : list ev) : obs :=
   let '(os, s) := run_from e st0 evs in OL [OL os; obs_state e s].
+
+(* ---- epoch change ----
+   EpochService::inform_epoch + precompute_epoch_data rebuild both multi-signers from the
+   registrations of the new epoch (the environment of the second segment: its current registration
+   is the next one of the first segment); CertifierService::inform_epoch deletes the open messages
+   of earlier epochs with their rows (on delete cascade); the buffer is NOT touched: a signature
+   buffered for an entity of the coming epoch is handed over after the change. *)
+Definition epoch_change (s : st) : st :=
+  {| st_open := []; st_rows := []; st_buf := st_buf s; st_certs := [] |}.
+
+Definition run2 (e1 : env) (evs1 : list ev) (e2 : env) (evs2 : list ev) : obs :=
+  let '(os1, s1) := run_from e1 st0 evs1 in
+  let '(os2, s2) := run_from e2 (epoch_change s1) evs2 in
+  OL [OL os1; obs_state e1 s1; OL os2; obs_state e2 s2].
 
 (* direct entry point: MultiSigner::verify_single_signature on the current registration *)
 Definition run_verify (e : env) (m : N) (xs : list ssig) : obs :=
